@@ -29,7 +29,7 @@ func scenarioC18(rc *RunCtx) *Violation {
 		o.Splitting = g.chance(75)
 	}
 	// hashed templates
-	o.EntryNames = []int{2, 3, 4, 0, 5}[g.n(5)]
+	o.EntryNames = []int{2, 3, 4, 0, 5, 7}[g.n(6)]
 	o.ChunkNames = g.n(len(chunkNameT))
 	o.AssetNames = []int{0, 1, 4, 2, 3}[g.n(5)]
 	o.BinLoader = []int{0, 3, 1}[g.n(3)]
@@ -82,7 +82,7 @@ func scenarioC18(rc *RunCtx) *Violation {
 			om.AssetNames = []int{0, 1, 4, 2, 3}[g.n(5)]
 			optChanges = append(optChanges, fmt.Sprintf("step %d: assetNames=%q", step, assetNameT[om.AssetNames]))
 		case 5:
-			om.EntryNames = []int{2, 3, 4, 5}[g.n(4)]
+			om.EntryNames = []int{2, 3, 4, 5, 7}[g.n(5)]
 			optChanges = append(optChanges, fmt.Sprintf("step %d: entryNames=%q", step, entryNameT[om.EntryNames]))
 		}
 		return true
